@@ -1131,3 +1131,101 @@ Proof.
   rewrite E1, E2. unfold sinks_of. cbn [slot_handlers]. unfold console_slot. rewrite H.
   repeat match goal with |- context [if ?c then _ else _] => destruct c end; reflexivity.
 Qed.
+
+(* ================================================================== several PrettyFormatter objects *)
+Lemma upd_length {A : Type} k (x : A) l : List.length (upd k x l) = List.length l.
+Proof. revert k; induction l as [|h t IH]; intros [|k]; cbn; auto. Qed.
+Lemma nth_error_upd_same {A : Type} k (x y : A) l : nth_error l k = Some y -> nth_error (upd k x l) k = Some x.
+Proof. revert k; induction l as [|h t IH]; intros [|k]; cbn; try discriminate; auto. Qed.
+Lemma nth_error_upd_other {A : Type} j k (x : A) l : j <> k -> nth_error (upd j x l) k = nth_error l k.
+Proof.
+  revert j k; induction l as [|h t IH]; intros [|j] [|k] H; cbn; try reflexivity; try congruence.
+  apply IH. congruence.
+Qed.
+Lemma seqb_refl x : seqb x x = true.
+Proof. induction x as [|c r IH]; cbn; [reflexivity|]. rewrite N.eqb_refl, IH. reflexivity. Qed.
+Lemma seqb_eq a b : seqb a b = true -> a = b.
+Proof.
+  revert b; induction a as [|x a IH]; intros [|y b]; cbn; try discriminate; [reflexivity|].
+  intros H. apply andb_true_iff in H as [H1 H2]. apply N.eqb_eq in H1. apply IH in H2. congruence.
+Qed.
+Lemma lseqb_refl l : lseqb l l = true.
+Proof. induction l as [|x r IH]; cbn; [reflexivity|]. rewrite seqb_refl, IH. reflexivity. Qed.
+Lemma lseqb_eq a b : lseqb a b = true -> a = b.
+Proof.
+  revert b; induction a as [|x a IH]; intros [|y b]; cbn; try discriminate; [reflexivity|].
+  intros H. apply andb_true_iff in H as [H1 H2]. apply seqb_eq in H1. apply IH in H2. congruence.
+Qed.
+Lemma out_of_cons_same k s r : out_of k ((k, s) :: r) = s :: out_of k r.
+Proof. unfold out_of. cbn [filter fst]. rewrite Nat.eqb_refl. reflexivity. Qed.
+Lemma out_of_cons_other j k s r : j <> k -> out_of k ((j, s) :: r) = out_of k r.
+Proof. intros H. unfold out_of. cbn [filter fst]. apply Nat.eqb_neq in H. rewrite H. reflexivity. Qed.
+Lemma seen_by_cons_same k m r : seen_by k ((k, m) :: r) = m :: seen_by k r.
+Proof. unfold seen_by. cbn [filter fst]. rewrite Nat.eqb_refl. reflexivity. Qed.
+Lemma seen_by_cons_other j k m r : j <> k -> seen_by k ((j, m) :: r) = seen_by k r.
+Proof. intros H. unfold seen_by. cbn [filter fst]. apply Nat.eqb_neq in H. rewrite H. reflexivity. Qed.
+
+(* the records of object k are those of ONE formatter run over the messages delivered to object k,
+   from whatever states the objects are in *)
+Theorem multi_run_object cfgs ops : forall sts k c w st,
+  nth_error cfgs k = Some (c, w) -> nth_error sts k = Some st ->
+  out_of k (multi_run cfgs sts ops) = pretty_seq c w st (seen_by k ops).
+Proof.
+  induction ops as [|[j m] r IH]; intros sts k c w st Hc Hs; [reflexivity|].
+  cbn [multi_run]. unfold multi_step. cbn [fst snd]. unfold pcfg in *.
+  destruct (Nat.eq_dec j k) as [E|E].
+  - subst j. rewrite Hc, Hs. destruct (pretty c w st m) as [st' s] eqn:P.
+    cbn [app]. rewrite out_of_cons_same, seen_by_cons_same. cbn [pretty_seq]. rewrite P. f_equal.
+    apply IH; [exact Hc|]. eapply nth_error_upd_same. exact Hs.
+  - rewrite (seen_by_cons_other j k m r E).
+    destruct (nth_error cfgs j) as [[c' w']|]; [destruct (nth_error sts j) as [stj|] eqn:Hj|].
+    + destruct (pretty c' w' stj m) as [st' s]. cbn [app]. rewrite (out_of_cons_other j k s _ E).
+      apply IH; [exact Hc|]. rewrite nth_error_upd_other by exact E. exact Hs.
+    + cbn [app]. apply IH; assumption.
+    + cbn [app]. apply IH; assumption.
+Qed.
+Theorem multi_object_own_sequence cfgs ops k c w :
+  nth_error cfgs k = Some (c, w) ->
+  out_of k (multi cfgs ops) = pretty_seq c w p0 (seen_by k ops).
+Proof.
+  intros Hc. unfold multi. apply multi_run_object; [exact Hc|].
+  apply (map_nth_error (fun _ : pcfg => p0) k cfgs Hc).
+Qed.
+(* what the OTHER objects were given - and in which interleaving - does not matter *)
+Theorem multi_object_independent cfgs ops ops' k :
+  (k < List.length cfgs)%nat -> seen_by k ops = seen_by k ops' ->
+  out_of k (multi cfgs ops) = out_of k (multi cfgs ops').
+Proof.
+  intros Hk E. destruct (nth_error cfgs k) as [[c w]|] eqn:Hc.
+  - rewrite (multi_object_own_sequence cfgs ops k c w Hc), (multi_object_own_sequence cfgs ops' k c w Hc), E. reflexivity.
+  - apply nth_error_None in Hc. lia.
+Qed.
+Lemma multi_run_ids cfgs ops : forall sts,
+  forallb (fun o : nat * qstr => Nat.ltb (fst o) (List.length cfgs)) (multi_run cfgs sts ops) = true.
+Proof.
+  induction ops as [|[j m] r IH]; intros sts; [reflexivity|].
+  cbn [multi_run]. unfold multi_step. cbn [fst snd].
+  destruct (nth_error cfgs j) as [[c' w']|] eqn:Hj; [destruct (nth_error sts j) as [stj|]|].
+  - destruct (pretty c' w' stj m) as [st' s]. cbn [app forallb fst]. rewrite IH, andb_true_r.
+    apply Nat.ltb_lt. apply nth_error_Some. congruence.
+  - cbn [app]. apply IH.
+  - cbn [app]. apply IH.
+Qed.
+(* the model satisfies the oracle; the oracle says what it should *)
+Theorem multi_satisfies_oracle cfgs ops : prop_multi_b cfgs ops (multi cfgs ops) = true.
+Proof.
+  unfold prop_multi_b. apply andb_true_iff. split; [apply multi_run_ids|].
+  apply forallb_forall. intros k Hk. apply in_seq in Hk.
+  destruct (nth_error cfgs k) as [[c w]|] eqn:Hc.
+  - rewrite (multi_object_own_sequence cfgs ops k c w Hc). apply lseqb_refl.
+  - apply nth_error_None in Hc. lia.
+Qed.
+Theorem multi_oracle_sound cfgs ops outs : prop_multi_b cfgs ops outs = true ->
+  forall k c w, nth_error cfgs k = Some (c, w) -> out_of k outs = pretty_seq c w p0 (seen_by k ops).
+Proof.
+  unfold prop_multi_b. intros H k c w Hc. apply andb_true_iff in H as [_ H].
+  rewrite forallb_forall in H. specialize (H k).
+  assert (Hk : In k (seq 0 (List.length cfgs))).
+  { apply in_seq. split; [lia|]. cbn. apply nth_error_Some. congruence. }
+  specialize (H Hk). rewrite Hc in H. apply lseqb_eq. exact H.
+Qed.
